@@ -118,7 +118,45 @@ class Observer:
             out.append(e)
         return out
 
-    def call(self, f, call, resolve=True):
+    def display(self, f, pos, kw):
+        """What f.display_resolution(*args) prints, parsed: the method announced as called first, the
+        methods numbered #1, #2 .. in order, and whether ambiguity is announced.  Methods are identified
+        by the source position printed next to them."""
+        import contextlib
+        import io
+        import re
+
+        where = {}
+        for mid, fn in self.bw.mfun.items():
+            key = (fn.__code__.co_filename, fn.__code__.co_firstlineno)
+            where[key] = None if key in where else mid     # shared code objects: not identifiable
+        buf = io.StringIO()
+        try:
+            with contextlib.redirect_stdout(buf):
+                f.display_resolution(*pos, **kw)
+        except BaseException as exc:  # noqa
+            exc.__traceback__ = None
+            return {"kind": "error", "first": "", "seq": [], "amb": False, "err": describe(exc)}
+        lines = [re.sub(r"\x1b\[[0-9;]*m", "", ln) for ln in buf.getvalue().splitlines()]
+        seq, first, amb, msg = [], "", False, ""
+        for k, ln in enumerate(lines):
+            m = re.match(r"^(#\d+|==|!=|--)\s", ln)
+            if m and k + 1 < len(lines):
+                loc = re.search(r"@ (.*):(\d+)\s*$", lines[k + 1])
+                mid = where.get((loc.group(1), int(loc.group(2)))) if loc else None
+                if mid is None:
+                    return {"kind": "unidentified", "first": "", "seq": [], "amb": False}
+                if m.group(1).startswith("#"):
+                    seq.append(mid)
+                    if m.group(1) == "#1":
+                        first = mid
+            if ln.startswith("Resolution:"):
+                msg = ln
+        amb = "ambiguity" in msg
+        kind = "run" if "will be called first" in msg else ("none" if "No method will be called" in msg else "unparsed")
+        return {"kind": kind, "first": first if kind == "run" else "", "seq": seq, "amb": amb}
+
+    def call(self, f, call, resolve=True, display=False):
         bw = self.bw
         pos, kw = self.make_args(call)
         del bw.log[:]
@@ -146,4 +184,6 @@ class Observer:
                 exc.__traceback__ = None
         else:
             obs["resolve"] = {"kind": "skip", "m": ""}
+        if display:
+            obs["display"] = self.display(f, pos, kw)
         return obs
